@@ -74,6 +74,24 @@ def queries(cs, cls):
         Q.append(("to_json", lambda s, args: s.to_json(["centroid"] + (["vertices"] if hasattr(s, "vertices") else [])), lambda s: ()))
     if "to_hoomd" in methods:
         Q.append(("to_hoomd", lambda s, args: s.to_hoomd(), lambda s: ()))
+    # queries that the shape *refuses* (malformed argument, unknown attribute / file type, unwritable path): a refusal is
+    # still a call that must leave the shape as it was - a query that moves the shape, fails and never moves it back shows here
+    if "is_inside" in methods:
+        Q.append(("is_inside:refused(N,4)", lambda s, args: s.is_inside(args[0]), lambda s: (np.ones((3, 4)),)))
+    if "compute_form_factor_amplitude" in methods:
+        Q.append(("form_factor:refused(3,)", lambda s, args: s.compute_form_factor_amplitude(args[0]), lambda s: (np.array([0.0, 0.0, 1.0]) / fpr.length_scale(s)[0],)))
+        Q.append(("form_factor:refused(N,2)", lambda s, args: s.compute_form_factor_amplitude(args[0]), lambda s: (np.array([[0.3, 0.4], [0.1, 0.2]]) / fpr.length_scale(s)[0],)))
+    if "distance_to_surface" in methods:
+        Q.append(("distance_to_surface:refused(str)", lambda s, args: s.distance_to_surface(args[0]), lambda s: (["not", "angles"],)))
+    if "get_face_area" in methods:
+        Q.append(("get_face_area:refused(out-of-range)", lambda s, args: s.get_face_area(args[0]), lambda s: (10 ** 6,)))
+    if "get_dihedral" in methods:
+        Q.append(("get_dihedral:refused(not-neighbours)", lambda s, args: s.get_dihedral(0, _non_neighbour(s)), lambda s: ()))
+    if "to_json" in methods:
+        Q.append(("to_json:refused(unknown)", lambda s, args: s.to_json(["centroid", "no_such_attribute"]), lambda s: ()))
+    if hasattr(cls, "save"):
+        Q.append(("save:refused(unknown-type)", lambda s, args: s.save("XYZ", os.path.join(args[0], "f.xyz")), lambda s: ("TMP",)))
+        Q.append(("save:refused(unwritable)", lambda s, args: s.save("OBJ", os.path.join(args[0], "no-such-dir", "f.obj")), lambda s: ("TMP",)))
     Q.append(("repr", lambda s, args: repr(s), lambda s: ()))
     Q.append(("str", lambda s, args: str(s), lambda s: ()))
     if hasattr(cls, "save"):
@@ -84,6 +102,14 @@ def queries(cs, cls):
         for fn in ("to_obj", "to_off", "to_stl", "to_ply", "to_vtk", "to_x3d", "to_html"):
             Q.append(("io." + fn, (lambda s, args, fn=fn: getattr(cio, fn)(s, os.path.join(args[0], fn))), lambda s: ("TMP",)))
     return Q
+
+
+def _non_neighbour(s):
+    nb = {int(x) for x in s.neighbors[0]}
+    for j in range(1, len(s.faces)):
+        if j not in nb:
+            return j
+    return 0
 
 
 def plan():
